@@ -165,6 +165,9 @@ type section struct {
 	rule   string                     // what is enumerated and what makes an input non-trivial
 	shards func(c *chk) []func()      // the enumeration, cut into independent pieces
 	one    func(c *chk, input string) // evaluate one input (used by the enumeration and by --replay)
+	// pshards: the enumeration under a NON-default address version byte (sections
+	// of prefix_test.go only; run in one sequential phase per version, see there).
+	pshards func(c *chk, prefix byte) []func()
 }
 
 var sections []*section
@@ -216,6 +219,9 @@ func TestCheck(t *testing.T) {
 	r.Parallel(len(work), func(i int) {
 		c.guard(names[i], "(enumeration)", work[i])
 	})
+	// the sections that depend on the process-global address version byte, once per
+	// non-default version, each in its own phase after the common one has been joined.
+	c.prefixPhases()
 	nfail := c.flush()
 	cov := map[string]any{}
 	var inputs, nontriv, evals, calls int64
@@ -240,6 +246,7 @@ func TestCheck(t *testing.T) {
 	cov["distinct_nontrivial"] = int(nontriv)
 	cov["rule"] = "input-exhaustive per section; a state is one distinct input of one section, a transition one call into the packages under test; " + strings.Join(rules, " | ")
 	cov["sections"] = per
+	c.prefixCoverage(cov)
 	prio := map[string]int{"sign-verify": 1, "fixedn-values": 2, "bigint-int": 3, "base58-bytes": 4, "script-multisig": 5, "nep2": 6, "nep2-unicode": 7}
 	rk := func(i int) string {
 		sec := c.samples[i].(map[string]string)["section"]
@@ -265,11 +272,12 @@ func TestCheck(t *testing.T) {
 		"the malleated signature (r, N-s) verifies for every signature: inherent to ECDSA as Neo uses it, only single-bit changes are demanded to fail",
 		"every signature equals the RFC 6979 signature computed by the Go standard library (independent implementation)",
 		"mr-tron/base58 rejects the empty string, so Decode(Encode([]byte{})) is not demanded of the raw codec",
+		"sections prefix-*: address.Prefix (process-global) is set between two joined parallel phases, one phase per non-default version byte, and restored by a defer; under NEO2Prefix the key's verification script is required to be the NEO2 one (PUSHBYTES33 key CHECKSIG) that publickey.go switches to; what NEP2Decrypt does with a string made under another address version is counted, not judged",
 		"scrypt cost limits NEP-2 to 2-3 keys; CreateMultiSigRedeemScript accepts n > 1024 keys (parser refuses them): not examined beyond n = 1024",
 	}
 	r.Finish(cov, []string{
 		"reference encoders/decoders (two's complement, base-58, Merkle recursion, decimal grammar, sequential scripts) are written in the check from the definitions and share no code with /repo",
-		"crypto/sha256, crypto/elliptic, math/big of the Go standard library are trusted",
+		"crypto/sha256, crypto/hmac, crypto/aes, crypto/elliptic, math/big of the Go standard library are trusted; RIPEMD-160 and scrypt references are written in the check and verified against their published test vectors at start",
 		"a corrupted Base58Check/WIF/NEP-2 string or signature is required to be rejected; a 2^-32 checksum collision or a forged signature would be reported (the run is deterministic, none occurs)",
 		"NEP-2 uses the library's standard scrypt parameters (n=16384,r=8,p=8) on a few keys only (cost)",
 	})
